@@ -13,9 +13,12 @@ RULE = ("exhaustive 8/16-bit varints (quick: all 8-bit, seeded slice of 16-bit);
         "implementation, real encode->decode round trip evaluated on the implementation (values and consumed bytes), "
         "decoders on trailing bytes / over-reads / truncations / bit flips / garbage under ASan+UBSan compared with the "
         "model; a case is non-trivial when it is a distinct op line")
-THEOREM_BACKED = ("varint_roundtrip, zigzag_roundtrip, scalar_roundtrip, bits_roundtrip, fastdiv_correct (generated table), "
-                  "rabs_roundtrip, ransBit/adaptive/direct/folded/symbolBit_roundtrip, getBit_past_end, direct_past_end, "
-                  "encoder_buffer_refines_items, buffer_items_roundtrip (stateful EncoderBuffer vs item-wise specification)")
+THEOREM_BACKED = ('varint_roundtrip, zigzag_roundtrip, scalar_roundtrip, bits_roundtrip, fastdiv_correct (generated table),'
+                  ' rabs_roundtrip, ransBit/adaptive/direct/folded/symbolBit_roundtrip, getBit_past_end, direct_past_end, '
+                  'encoder_buffer_refines_items, buffer_items_roundtrip (stateful EncoderBuffer vs item-wise '
+                  'specification); source_toSymbol_is_model / source_ofSymbol_is_model (ConvertSignedIntToSymbol<int32_t> /'
+                  " ConvertSymbolToSignedInt<uint32_t>, translated from clang's AST on every run, are the model's toSymbol "
+                  '32 / ofSymbol)')
 CORRESPONDENCE_ONLY = ""
 EXPLANATION = "Lean theorems about the executable model of the primitives + byte-exact correspondence with the real classes"
 
